@@ -807,7 +807,10 @@ impl<const MIN_ALIGN: usize> Bump<MIN_ALIGN> {
         self.allocation_limit.get().and_then(|allocation_limit| {
             let allocated_bytes = self.allocated_bytes();
             if allocated_bytes > allocation_limit {
-                None
+                // Already over the limit (e.g. the limit was lowered after
+                // chunks were allocated): there is no headroom left. Note that
+                // `None` would mean "no limit at all" to our callers.
+                Some(0)
             } else {
                 Some(usize::abs_diff(allocation_limit, allocated_bytes))
             }
